@@ -227,6 +227,21 @@ Definition run_c15 (fs : list bytes) : list bytes :=
   let s := run_telnet (of_hex (nthf 1 fs)) in
   [to_hex (concat (t_replies s)); to_hex (t_data s)].
 
+(* ---- login: login depth prompt ret kind user pw pp start log -> outcome sync wlog queue-head ---- *)
+Definition run_login (fs : list bytes) : list bytes :=
+  match mk_cfg fs with
+  | None => [bs "no-such-prompt-pattern"]
+  | Some cfg =>
+      let a := if beqb (nthf 4 fs) (bs "ssh") then AuthSSH (hexf 6 fs) (hexf 7 fs)
+               else if beqb (nthf 4 fs) (bs "telnet") then AuthTelnet (hexf 5 fs) (hexf 6 fs) else AuthNone in
+      let call : call := fun _ => channel_open cfg default_auth_pats a in
+      let '(s, outs) := replay_session cfg (hexf 8 fs) (parse_log (nthf 9 fs)) [call] in
+      [ join [COMMA] (map emit_out outs);
+        (if desynced s then bs "desync" else bs "sync");
+        emit_wlog (s_wlog s);
+        (match outs with [COk _] => to_hex (hd [] (s_queue s)) | _ => [] end) ]
+  end.
+
 (* ---- network driver sessions: net depth ret start default secondary levels ops log ---- *)
 Definition US : N := 31.   (* separator of multi-results *)
 
@@ -380,6 +395,7 @@ Definition dispatch (fs : list bytes) : list bytes :=
   else if beqb name (bs "c01hyp") then run_c01hyp fs
   else if beqb name (bs "net") then run_net fs
   else if beqb name (bs "c14") then run_c14 fs
+  else if beqb name (bs "login") then run_login fs
   else [bs "unknown-case"].
 
 Definition run_line (line : bytes) : bytes := unfields (dispatch (fields line)).
